@@ -10,6 +10,7 @@ import (
 	"github.com/zishang520/engine.io-go-parser/packet"
 	"github.com/zishang520/engine.io/v2/log"
 	"github.com/zishang520/engine.io/v2/types"
+	"github.com/zishang520/engine.io/v2/utils"
 )
 
 var ws_log = log.NewLog("engine:ws")
@@ -129,10 +130,12 @@ func (w *websocket) Send(packets []*packet.Packet) {
 }
 func (w *websocket) send(packets []*packet.Packet) {
 	defer func() {
+		utils.VerifYield("ws.send.done")
 		w.Emit("drain")
 		w.SetWritable(true)
 		w.Emit("ready")
 	}()
+	utils.VerifYield("ws.send.begin")
 
 	w.mu.Lock()
 	defer w.mu.Unlock()
